@@ -233,7 +233,27 @@ def r2_none_use(ctx):
                     and U(x.func.value) not in ("np", "numpy", "torch", "math"):
                 uses.append((n, x, x.args[0].id))
     if not uses:
-        raise AnalysisError("C18.R2", "anchor vanished: `.round(<precision variable>)` in _generate_dataset")
+        # the rounding may have moved: wherever it is, the ages of BOTH designs (random and table-driven) must pass through it
+        moved = []
+        cls_ = ctx.ix.find_class(CLS)
+        for g in ctx.ix.iter_funcs():
+            if g.cls != cls_ and not (g.cls is not None and cls_ in ctx.ix.mro(g.cls)) and not (g.cls is not None and g.cls in ctx.ix.mro(cls_)):
+                continue
+            for c in ast.walk(g.node):
+                if isinstance(c, ast.Call) and ((isinstance(c.func, ast.Attribute) and c.func.attr == "round") or U(c.func) in ("round",)) and any("precision" in U(a_) for a_ in list(c.args) + [k.value for k in c.keywords]):
+                    moved.append((g, c))
+        if not moved:
+            ctx.violation("C18.R2", f, f.node, "the simulated ages are no longer rounded to the precision derived from min_spacing_between_visits", construct="rounding of the ages")
+            return
+        for g, c in moved:
+            gcfg = CFG(g.node)
+            cn_ = gcfg.node_containing(c)
+            rets = [n for n, st in gcfg.stmt.items() if isinstance(st, ast.Return) and st.value is not None]
+            unrounded = [n for n in rets if n != cn_ and not (cn_ is not None and gcfg.dominates(cn_, n))]
+            ctx.check(not unrounded, "C18.R2", g, c, f"every value returned by {g.name} went through the rounding",
+                      f"the rounding now sits in {g.name}, where `{U(gcfg.stmt[unrounded[0]])[:70] if unrounded else ''}` returns without it: the ages of that design (e.g. a supplied visit table) "
+                      "are not rounded to the documented precision", construct="rounding on every path")
+        return
     for n, x, var in uses:
         defs = [(m, s) for m, s in cfg.stmt.items() if isinstance(s, (ast.Assign, ast.AnnAssign)) and any(U(t) == var for t in store_targets(s))]
         none_defs = [(m, s) for m, s in defs if isinstance(s.value, ast.Constant) and s.value.value is None]
